@@ -125,12 +125,12 @@ const hex64 = "0123456789abcdef0123456789abcdef0123456789abcdef0123456789abcdef"
 // non-entry files, relative to the cache root
 var nonEntryPath = map[string]string{
 	"readme":   "README",
-	"rootent":  hex64 + "-a",                              // entry-like name, but directly in the root
+	"rootent":  hex64 + "-a",                                 // entry-like name, but directly in the root
 	"fuzzent":  "fuzz/example.com/pkg/FuzzX/" + hex64 + "-d", // fuzz data (FuzzDir), entry-like name
-	"subplain": "00/notes.txt",                            // foreign file inside a cache subdirectory
-	"subtmp":   "ff/" + hex64 + "-d.tmp",                  // entry name plus another suffix
-	"subdash":  "00/foreign-a",                            // ambiguous: foreign file with the entry suffix
-	"otherdir": "tmp/" + hex64 + "-a",                     // entry-like name in a directory that is no cache subdirectory
+	"subplain": "00/notes.txt",                               // foreign file inside a cache subdirectory
+	"subtmp":   "ff/" + hex64 + "-d.tmp",                     // entry name plus another suffix
+	"subdash":  "00/foreign-a",                               // ambiguous: foreign file with the entry suffix
+	"otherdir": "tmp/" + hex64 + "-a",                        // entry-like name in a directory that is no cache subdirectory
 }
 
 var corruptVariant = map[int64][]byte{
@@ -443,8 +443,13 @@ func abs(x int64) int64 {
 // subdirectories; it is checked to leave no regular file behind.
 var roots chan string
 
-func wipe(root string) {
-	s := snap(root)
+func wipe(root string, have *snapshot) {
+	var s snapshot
+	if have != nil {
+		s = *have
+	} else {
+		s = snap(root)
+	}
 	for p := range s.Files {
 		os.Remove(filepath.Join(root, p))
 	}
@@ -476,8 +481,9 @@ func runCase(res *vutil.Result, line []byte, n int) {
 	}
 	v := &verdict{res: res, cs: &cs, line: line}
 	root := <-roots
+	var final *snapshot // the last snapshot taken, if nothing can have been created since
 	defer func() {
-		wipe(root)
+		wipe(root, final)
 		roots <- root
 	}()
 	t0 := time.Now()
@@ -558,6 +564,15 @@ func runCase(res *vutil.Result, line []byte, n int) {
 			}
 		}
 	}
+	relKnown := map[string]bool{"trim.txt": true}
+	for _, rel := range w.paths {
+		relKnown[rel] = true
+	}
+	for p := range before.Files {
+		if !relKnown[p] {
+			v.drift("unexpected-file-before-trim", "a file neither the driver nor the model knows exists before the judged trim: "+p, nil)
+		}
+	}
 	ttData, ttErr := os.ReadFile(filepath.Join(root, "trim.txt"))
 	ttOK := false
 	switch cs.Pre.TT.K {
@@ -586,6 +601,7 @@ func runCase(res *vutil.Result, line []byte, n int) {
 	}
 	callEnd := time.Now()
 	after := snap(root)
+	final = &after // only lookups follow
 	if time.Since(t0) > 4*time.Minute {
 		// the 10 minute margins no longer guarantee anything: no verdict for this case
 		res.Count("slow_cases", 1)
@@ -656,7 +672,9 @@ func runCase(res *vutil.Result, line []byte, n int) {
 				switch {
 				case kind == "non-entry":
 					v.violate("non-entry-removed", f, fmt.Sprintf("Trim removed %s (%s), which is not a cache entry", rel, f), fd)
-				case cs.Expect.Lk[f] == "put-existing":
+				case cs.Expect.Lk[f] == "put-existing" && ageMin(now, fb.Mtime)-cs.Pre.MT[f] > 5 && cs.Expect.Model[f] == "keep":
+					// the Put did not refresh the mtime of the output it stored again (the model, following the
+					// statement, has it refreshed), and the trim then took the file for stale.
 					// behaviour seen by a user of the API: the entry stored a moment ago is gone
 					probe := w.probe(&cs, f)
 					fd["lookups_after_trim"] = probe
@@ -785,6 +803,9 @@ func sample(res *vutil.Result, cs *caseJ, hist string, diff []string, n int) {
 		if a != absent {
 			pop[f] = a
 		}
+	}
+	if diff == nil {
+		diff = []string{}
 	}
 	res.Sample(map[string]interface{}{"population_age_min": pop, "trim_txt": ttClass(cs.Init.TT), "history": hist,
 		"regime": cs.Expect.Regime, "observed_changes": diff}, 12)
